@@ -302,7 +302,7 @@ PROPS = {
     "C14": {
         "families": [("liveness-query", 900, 25000), ("registry-liveness", 500, 12000), ("faults", 200, 6000)],
         "monitors": ["C14"],
-        "theorems": ["C14_truth", "C14_answer_after_termination_is_for_ever"],
+        "theorems": ["C14_truth", "C14_answer_after_termination_is_for_ever", "C14_answer_flips_only_when_the_task_ends"],
         "nontrivial": nt_c14,
         "rule": "cases generated from (family, VERIF_SEED, index); non-trivial = a stopped()/running() query (or a registry operation) is issued after the addressed actor's task ended while nobody had awaited that actor before; distinct = distinct case JSON",
         "assumptions": ["'terminated' is witnessed by the end of the actor's task (EvTaskEnd), which is also when the notifier fires or is dropped"],
